@@ -83,7 +83,8 @@ PROPS["C07"] = dict(
                 expect=["BestIndividual<P>::update", "BestIndividual<P>::new"]),
            dict(name="update_exec", template="contracts/C07/update_exec.vrs", expect=["<BestIndividualUpdate as Component<P>>::execute"]),
            dict(name="archive_into_population", template="contracts/C07/archive_into_population.vrs",
-                expect=["impl<P> Component<P> for ElitistArchiveIntoPopulation::execute"])],
+                expect=["impl<P> Component<P> for ElitistArchiveIntoPopulation::execute"]),
+           dict(name="archive_update", template="contracts/C07/archive_update.vrs", expect=["ElitistArchive<P>::update", "ElitistArchive<P>::new", "ElitistArchive<P>::elitists"])],
     kani=[dict(files=["contracts/C07/c07.rs"], inject=[dict(file="contracts/C07/c07_archive.rs", into="src/components/archive.rs")])],
     min_obligations={"quick": 42, "thorough": 44},
     uncovered=["whole-run clause 'reported best = minimum returned' (placement of updates in templates)"],
